@@ -10,7 +10,7 @@ type PubSubOwner struct {
 	XMLName      xml.Name `xml:"http://jabber.org/protocol/pubsub#owner pubsub"`
 	OwnerUseCase OwnerUseCase
 	// Result sets
-	ResultSet *ResultSet `xml:"set,omitempty"`
+	ResultSet *ResultSet `xml:"http://jabber.org/protocol/rsm set,omitempty"`
 }
 
 func (pso *PubSubOwner) Namespace() string {
@@ -53,7 +53,7 @@ const (
 type ConfigureOwner struct {
 	XMLName xml.Name `xml:"configure"`
 	Node    string   `xml:"node,attr,omitempty"`
-	Form    *Form    `xml:"x,omitempty"`
+	Form    *Form    `xml:"jabber:x:data x,omitempty"`
 }
 
 func (*ConfigureOwner) UseCase() string {
@@ -62,7 +62,7 @@ func (*ConfigureOwner) UseCase() string {
 
 type DefaultOwner struct {
 	XMLName xml.Name `xml:"default"`
-	Form    *Form    `xml:"x,omitempty"`
+	Form    *Form    `xml:"jabber:x:data x,omitempty"`
 }
 
 func (*DefaultOwner) UseCase() string {
@@ -412,7 +412,12 @@ func (pso *PubSubOwner) UnmarshalXML(d *xml.Decoder, start xml.StartElement) err
 		case xml.StartElement:
 			// Decode sub-elements
 			var err error
-			switch tt.Name.Local {
+			local := tt.Name.Local
+			if local == "set" && tt.Name.Space != "http://jabber.org/protocol/rsm" {
+				// some other element called set: not a result set
+				local = ""
+			}
+			switch local {
 
 			case "affiliations":
 				aff := AffiliationsOwner{}
